@@ -466,6 +466,8 @@ def c06_excluded(f, a, g, b):
         return True          # the merge event steps outside integrate(): cadence lags by construction
     if any(e == "lrescale" for e in evs) and roles is not None and roles != "variational":
         return True          # lrescale exists only with a variational configuration
+    if d.get("eventA") == "n_to_zero" and d.get("eventB") == "remove":
+        return True          # nothing left to remove
     if cad is not None and cad != "manual" and d.get("eventA") == "sett_t0":
         return True          # rewinding t under a time cadence is a lagging run by construction
     return False
@@ -863,6 +865,19 @@ def run_history(rebound, hist, wd, load_back=True, keep_copies=False):
         cp = s.copy()
         caps.append(dict(steps=int(s.steps_done), t=hex64(s.t), path=p, copy=cp, selfeq=bool(cp == s)))
 
+    def adv_next(tsnap):
+        """what reb_simulationarchive_heartbeat does to simulationarchive_next before it saves (pinned source: one
+        interval; repaired source, hist["cad_repaired"]: output times that have already passed are skipped)"""
+        import math
+        sg = 1.0 if sim.dt > 0 else -1.0
+        iv = state["auto"][1]
+        n = state["next"] + sg * iv
+        if hist.get("cad_repaired") and sg * n <= sg * tsnap and iv > 0:
+            n += sg * (math.floor(sg * (tsnap - n) / iv) + 1.0) * iv
+            if sg * n <= sg * tsnap:
+                n += sg * iv
+        state["next"] = n
+
     def mark(txt):
         with open(os.path.join(wd, "progress"), "w") as f:
             f.write(txt)
@@ -1074,7 +1089,7 @@ def run_history(rebound, hist, wd, load_back=True, keep_copies=False):
                         meta["appends"].append(dict(kind="auto", t=tb[::-1].hex(), steps=int(sd), N=-1, selfeq=False, nocapture=True))
                         kept.append(None)
                         if state["auto"][0] == "interval":
-                            state["next"] = state["next"] + (1.0 if sim.dt > 0 else -1.0) * state["auto"][1]
+                            adv_next(struct.unpack("<d", tb)[0])
                         else:
                             state["next"] = state["next"] + state["auto"][1]
                         continue
@@ -1083,7 +1098,7 @@ def run_history(rebound, hist, wd, load_back=True, keep_copies=False):
                     sb = open(src["path"], "rb").read()
                     cp = src["copy"] if src is not fin else src["copy"].copy()
                     if state["auto"][0] == "interval":
-                        state["next"] = state["next"] + (1.0 if sim.dt > 0 else -1.0) * state["auto"][1]
+                        adv_next(struct.unpack("<d", struct.pack("<Q", int(src["t"], 16)))[0])
                         sb = patch_record(sb, 48, struct.pack("<d", state["next"]))
                         cp.simulationarchive_next = state["next"]
                     else:
